@@ -110,7 +110,10 @@ func runLogoutStream(c *Ctx, n int) {
 			d2 := etree.NewDocument()
 			if d2.ReadFromBytes(raw) == nil {
 				rt := d2.Root()
-				switch r.Intn(7) {
+				switch r.Intn(8) {
+				case 7:
+					rt.CreateAttr("SignatureValidated", "true")
+					labels = append(labels, "signaturevalidated-attribute")
 				case 0:
 					rt.CreateAttr("Destination", sloURL)
 					rt.CreateAttr("InResponseTo", "_attacker")
@@ -363,6 +366,13 @@ func runPredecodeStream(c *Ctx, n int) {
 		case 6:
 			ins(rootTagEnd, ` xmlns:x="urn:x" x:Destination="https://evil.example.com/" x:Version="9.9" x:InResponseTo="_other"`)
 			labels = append(labels, "prefixed-base-attrs")
+		case 7, 8:
+			// a second, different root Issuer in front of the genuine one (validation keeps the LAST one)
+			close := strings.Index(s[rootTagEnd:], ">") + rootTagEnd + 1
+			if s[close-2] != '/' {
+				ins(close, `<x:Issuer xmlns:x="urn:oasis:names:tc:SAML:2.0:assertion">https://tenant-b.example.com/metadata</x:Issuer>`)
+				labels = append(labels, "extra-issuer-first")
+			}
 		}
 		raw = []byte(s)
 		wire := raw
@@ -376,7 +386,7 @@ func runPredecodeStream(c *Ctx, n int) {
 		for _, l := range labels {
 			c.Count("pre:" + l)
 		}
-		c.Eval(shape < 7, strings.Join(labels, ","))
+		c.Eval(shape < 9, strings.Join(labels, ","))
 		var obs string
 		var preID, preIRT, preDest, preVer, preIss string
 		var preErr error
